@@ -25,7 +25,8 @@ namespace; `Repo` (end of file) is the repository of several namespaces.
 The subclass relation (`children`, `subNamesDeep`, `subtreeList`, `Desc`) is meant to be reused by C13.
 
 The model mirrors the code INCLUDING its open defects (known findings C12-classqual-not-inherited,
-C12-override-marked-propagated, C12-param-qualifiers-unresolved); `Spec` below says what the property
+C12-override-marked-propagated, C12-param-qualifiers-unresolved: parameters of NEW methods are never
+resolved); `Spec` below says what the property
 demands instead.
 -/
 import Pywbem.Proto
@@ -270,13 +271,17 @@ def keyOfVal (v : Val) : Except PyExc Name :=
   | .null => .error .valueError          -- NocaseDict refuses the key None
   | .tok _ => .error .attributeError     -- non-string key has no casefold()
 
-/-- mirrors pywbem_mock/_resolvermixin.py: ResolverMixin._resolve_objects (type_str = "Parameter").
-    CIMParameter has `__slots__` without `propagated`/`class_origin`, so every path that reaches
-    `_set_new_object` (or the copy loop) with a parameter ends in AttributeError: an overriding method
-    resolves only when its parameter names equal those of the overridden method and no parameter
-    carries an Override qualifier; the parameters themselves stay as declared. -/
-def resolveParam (supP : List Param) (p : Param) : Except PyExc Param :=
-  if !(hasParam supP p.name) then .error .attributeError
+/-- inherited parameter that the overriding method does not declare (copy loop of `_resolve_objects`) -/
+def copyParam (p : Param) : Param := { p with quals := copyQuals p.quals }
+
+/-- mirrors pywbem_mock/_resolvermixin.py: ResolverMixin._resolve_objects (type_str = "Parameter"):
+    one parameter of an overriding method against the parameters of the overridden method.
+    (CIMParameter has no propagated / class_origin: `_set_new_object` only resolves its qualifiers.) -/
+def resolveParam (decls : List QDecl) (supP : List Param) (p : Param) : Except PyExc Param :=
+  if !(hasParam supP p.name) then
+    match resolveQuals decls p.quals [] false with
+    | .error e => .error e
+    | .ok qs => .ok { p with quals := qs }
   else if !(hasQual p.quals nOverride) then .ok p
   else
     if p.ty == tyReference && overrideVal p.quals != .str p.name then .error errParam
@@ -289,12 +294,15 @@ def resolveParam (supP : List Param) (p : Param) : Except PyExc Param :=
         | some sp =>
           if sp.ty != p.ty || sp.isArr != p.isArr || sp.arrSize != p.arrSize || sp.emb != p.emb then
             .error errParam
-          else .error .attributeError
+          else
+            match resolveQuals decls p.quals sp.quals true with
+            | .error e => .error e
+            | .ok qs => .ok { p with quals := qs }
 
-def resolveParams (newP supP : List Param) : Except PyExc (List Param) :=
-  match mapE (resolveParam supP) newP with
+def resolveParams (decls : List QDecl) (newP supP : List Param) : Except PyExc (List Param) :=
+  match mapE (resolveParam decls supP) newP with
   | .error e => .error e
-  | .ok ps => if supP.any (fun sp => !(hasParam newP sp.name)) then .error .attributeError else .ok ps
+  | .ok ps => .ok (ps ++ ((supP.filter (fun sp => !(hasParam newP sp.name))).map copyParam))
 
 /-- mirrors pywbem_mock/_resolvermixin.py: ResolverMixin._set_new_object -/
 def setNewElem (decls : List QDecl) (clsName : Name) (e : Elem) (inh : Option Elem) :
@@ -335,7 +343,7 @@ def resolveElem (decls : List QDecl) (clsName : Name) (supE : List Elem) (e : El
             | .error err => .error err
             | .ok e' =>
               if e.isMeth then
-                match resolveParams e'.params ((findElem supE e.name).map (·.params) |>.getD []) with
+                match resolveParams decls e'.params ((findElem supE e.name).map (·.params) |>.getD []) with
                 | .error err => .error err
                 | .ok ps => .ok { e' with params := ps }
               else .ok e'
